@@ -47,7 +47,9 @@ fn main() {
         "C06" => props::c06::run(&mut ctx),
         "C07" => props::c07::run(&mut ctx),
         "C09" => props::c09::run(&mut ctx),
+        "C10" => props::c10::run(&mut ctx),
         "C11" => props::c11::run(&mut ctx),
+        "C12" => props::c12::run(&mut ctx),
         x => { eprintln!("no harness for {x}"); std::process::exit(2); }
     }
     let mut j = ctx.ev.to_json();
